@@ -1365,6 +1365,53 @@ func (x *Exec) pointerConfigs(h *State, ls *loopSpec, direct map[types.Object]bo
 	if len(ptrs) == 0 {
 		return []map[types.Object]Value{{}}
 	}
+	// pointers that the body re-assigns to freshly allocated objects (results of calls) are not part
+	// of a finite configuration: at the loop head they point to an unknown object of their type
+	{
+		initial := map[int]bool{}
+		for _, o := range ptrs {
+			initial[h.vars[o].(PtrV).Alloc] = true
+		}
+		x.quiet++
+		savedObls := len(x.Obls)
+		d := h.fork()
+		if ls.cond != nil {
+			if c := ls.cond(d); !c.IsFalse() {
+				d.assume(c)
+			}
+		}
+		if ls.pre != nil {
+			ls.pre(d)
+		}
+		fresh := map[types.Object]bool{}
+		for _, o := range x.execBlock(d, ls.body.List) {
+			if o.kind != oNormal && o.kind != oContinue {
+				continue
+			}
+			for _, p := range ptrs {
+				if nv, ok := o.st.vars[p].(PtrV); ok && !initial[nv.Alloc] {
+					fresh[p] = true
+				}
+			}
+		}
+		x.quiet--
+		x.Obls = x.Obls[:savedObls]
+		if len(fresh) > 0 {
+			e := x.env(h)
+			var rest []types.Object
+			for _, p := range ptrs {
+				if fresh[p] {
+					h.vars[p] = x.havoc(e, p.Type(), p.Name())
+				} else {
+					rest = append(rest, p)
+				}
+			}
+			ptrs = rest
+			if len(ptrs) == 0 {
+				return []map[types.Object]Value{{}}
+			}
+		}
+	}
 	key := func(c map[types.Object]Value) string {
 		var ks []string
 		for _, o := range ptrs {
